@@ -2,7 +2,7 @@
 Tie: H lock-step with k inputs (0..4), interleaved sends, closes and receives.
 Direct oracle additionally on: wide fan-in (k up to 65), bursts (moves made back to back, without waiting for
 quiescence) against a full output buffer, and Join called with a spread slice that the caller overwrites right away."""
-import json, re
+import json, os, re, subprocess
 import vlib, lockstep as ls
 
 # k up to which `oracle lockstep` is asked (its state set grows with the number of copiers); wider scripts and scripts
@@ -160,6 +160,26 @@ def evaluate(script, tr):
             vs.append(vlib.Violation("impl", "Join: input %d sent %s but its elements came out as %s%s" % (j, xs, sub, how), case=script, expected=xs, got=sub, key=key))
     if len(set(got)) != len(got) or any(v not in allsent for v in got):
         vs.append(vlib.Violation("impl", "Join delivered a duplicate or invented element: %s (sent %s)%s" % (got, allsent, how), case=script, key=key))
+    # "any arrival order": while the output has room and nothing was cancelled, an element offered on an UNBUFFERED open input
+    # is taken at once (a copier waits on every input); a refused send there means Join is not listening on that input
+    caps = [int(x) for x in tr.cfg.get("caps", "").split(",") if x] if tr.cfg.get("caps") else []
+    cancelled, prev_out, closed_j = False, 0, set()
+    for mv, res, lens in tr.steps:
+        if mv == "x" or (mv[0] == "b" and ",x" in "," + mv[1:]):
+            cancelled = True
+        if mv[0] == "c" and res == "ok":
+            closed_j.add(int(mv[1:]))
+        if mv[0] == "s" and res == "full" and not cancelled and tr.cfg.get("mode", "pure") in ("pure", "reuse", "reusenil"):
+            j = int(mv[1:].split(":")[0])
+            cj = caps[j] if j < len(caps) else int(tr.cfg.get("cap", 0))
+            if cj == 0 and prev_out < k and j not in closed_j:
+                vs.append(vlib.Violation("impl", "Join: an element offered on the unbuffered open input %d was not taken although the output has room (%d of %d): "
+                                         "Join is not receiving from that input%s" % (j, prev_out, k, how), case=script, expected="ok", got="full", key=dict(key, **{"class": "input-not-served"})))
+                break
+        try:
+            prev_out = int((lens.split(";")[1] or "0").split(",")[0])
+        except Exception:
+            pass
     # closes after - and only after - every input has closed
     nclosed = 0
     for mv, res, _ in flat_steps(tr):
@@ -250,6 +270,42 @@ def account(ctx, kinds, scripts, trs):
         ctx.count(s, nontrivial=nontrivial)
 
 
+def arity_phase(ctx, binp):
+    """Join with 0 … 70 000 inputs (go/harness/lockstep/joinarity_test.go), direct oracle only"""
+    fout = os.path.join(ctx.tmp, "joinarity.out")
+    if os.path.exists(fout):
+        os.remove(fout)
+    try:
+        p = subprocess.run([binp, "-test.run", "TestJoinArity$", "-test.count=1", "-test.timeout=600s"], env=dict(os.environ, JOINARITY_OUT=fout), capture_output=True, text=True, timeout=700)
+        rc, txt = p.returncode, p.stdout[-2000:] + p.stderr[-3000:]
+    except subprocess.TimeoutExpired:
+        rc, txt = -1, "timeout"
+    done, started = {}, None
+    if os.path.exists(fout):
+        for l in open(fout).read().split("\n"):
+            if l.startswith("#"):
+                started = int(l[1:])
+            elif l:
+                k, _, r = l.partition(" ")
+                done[int(k)] = r
+    for k, r in sorted(done.items()):
+        ctx.count("arity k=%d" % k, nontrivial=k >= 2)
+        ctx.hist("arity_phase_k", k)
+        if r.startswith("SLOW"):
+            # not a verdict on the property: too slow for the harness's patience
+            ctx.broken.append({"kind": "correspondence", "detail": "Join with %d inputs: %s" % (k, r)})
+        elif r != "ok":
+            ctx.violations.append(vlib.Violation("impl", "Join with %d inputs: %s" % (k, r), case="arity k=%d (every third input carries its index, all inputs closed)" % k, expected="ok", got=r,
+                                                 key={"stage": "Join", "k": k, "class": "arity"}))
+    if rc != 0:
+        if started is not None and started not in done:
+            m = re.search(r"panic: ([^\n]*)", txt)
+            ctx.violations.append(vlib.Violation("impl", "Join with %d inputs: the library crashed: %s" % (started, m.group(1) if m else txt.strip()[-200:]),
+                                                 case="arity k=%d (every third input carries its index, all inputs closed)" % started, got=txt[-1500:], key={"stage": "Join", "k": started, "class": "arity-crash"}))
+        else:
+            ctx.broken.append({"kind": "correspondence", "detail": "arity run of Join failed: " + txt[-400:]})
+
+
 def run(ctx):
     ctx.cov["rule"] = ("script = Join over k inputs with per-input capacities, distinct elements distributed over the inputs, random interleaving of "
                        "sends, closes and receives, final drain. kind=random: k in 0..4, capacities 0..2 (non-trivial = at least two inputs carried an element); "
@@ -286,9 +342,11 @@ def run(ctx):
         if part:
             account(ctx, [k for k, _ in part], [s for _, s in part], fn([s for _, s in part]))
             ctx.note("%d scripts %s" % (len(part), "through the direct oracle only" if sel else "against the model and the direct oracle"))
+    if not ctx.replay:
+        arity_phase(ctx, binp)
     # crashes are reported by the shared machinery without the calling convention: say how Join was called
     for v in ctx.violations:
-        if v.case and "Join was called" not in v.what:
+        if v.case and "Join was called" not in v.what and not v.case.startswith("arity"):
             v.what += HOW.get(ls.parse_cfg(v.case).get("mode", "pure"), "")
     if ctx.thorough() and not ctx.replay:
         ls.stress(ctx, ["join"], 15, {"stage": "Join"})
